@@ -1158,6 +1158,112 @@ def check_C05(tier, seed):
 
 
 # ---------------------------------------------------------------------------
+# C15: the value encoding
+# ---------------------------------------------------------------------------
+def apalache(spec, inv, wd, cwd=None, timeout=900):
+    p = core.subprocess.run(["apalache-mc", "check", "--init=Init", "--next=Next", f"--inv={inv}", "--length=0",
+                             f"--out-dir={os.path.join(wd, 'apalache')}", spec],
+                            cwd=cwd or core.SPEC, capture_output=True, text=True, timeout=timeout)
+    out = p.stdout + p.stderr
+    if "The outcome is: NoError" in out:
+        res = "NoError"
+    elif "The outcome is: Error" in out:
+        res = "Error"
+    else:
+        raise ToolError("apalache: " + out[-1500:])
+    holds = len(core.re.findall(r"state invariant \d+ holds", out))
+    return res, holds
+
+
+def check_C15(tier, seed):
+    o = Outcome("C15", tier, seed, "model_checking")
+    o.assumptions = [
+        "the encoding scheme as stated in spec/NlEnc.tla (tag in the low 3 bits; ints and function descriptors shifted left by 3; arithmetic shift to decode; heap boxes 8-aligned)",
+        "Apalache's SMT encoding of integer arithmetic for the W = 64 instance (spec/NlEncApa.tla); TLC for the exhaustive small-width instances",
+        "raw words are read through the hook Object::raw_bits; heap constructors are driven through the re-exported collector type",
+    ]
+    t0 = time.time()
+    wd = core.workdir("C15_model")
+    for w in (8, 11):
+        r = core.run_tlc("MC_NlEnc.tla", f"MC_NlEnc_w{w}.cfg", workdir_=wd, timeout=900)
+        if r.error or not r.ok:
+            raise ToolError(f"NlEnc W={w}: {r.error or r.raw[-800:]}")
+        o.add_tlc(r)
+    res, holds = apalache("NlEncApa.tla", "Laws", wd)
+    if res != "NoError":
+        raise ToolError("the encoding laws do not hold at W = 64 (specification error): see " + wd)
+    # non-vacuity: ordering the words as UNSIGNED numbers (what the tree did before the fix) is refuted
+    src = open(os.path.join(core.SPEC, "NlEncApa.tla")).read()
+    dev = src.replace("(Signed(EncInt(v)) < Signed(EncInt(u))) <=> (v < u)", "(EncInt(v) < EncInt(u)) <=> (v < u)") \
+             .replace("MODULE NlEncApa", "MODULE NlEncApaDev")
+    open(os.path.join(wd, "NlEncApaDev.tla"), "w").write(dev)
+    res2, _ = apalache("NlEncApaDev.tla", "Laws", wd, cwd=wd)
+    if res2 != "Error":
+        raise ToolError("non-vacuity: the unsigned-ordering deviation is not refuted")
+    o.legs.append({"leg": "laws", "tlc_widths": [8, 11], "apalache_w64": res, "apalache_invariants_hold": holds,
+                   "deviation_refuted": True, "wall_s": round(time.time() - t0, 1)})
+    o.extra["obligations"] = holds
+    o.extra["discharged"] = holds
+    # binding to the real Object
+    t1 = time.time()
+    wd2 = core.workdir("C15_binding")
+    shards = 8
+
+    def gen(i):
+        f = os.path.join(wd2, f"enc{i}.ndjson")
+        core.run_nlh(["gen-enc", "--seed", seed, "--n", size(tier, 1600, 40000), "--shards", shards, "--shard", i,
+                      "--lattice", size(tier, "quick", "full"), "--eq-sample", size(tier, 200, 200),
+                      "--first-id", i * 10000000 + 1, "--out", f])
+        return f
+    files = core.parallel(gen, list(range(shards)))
+    results = run_tv_shards(files, "TV_Enc.tla", "TV_Enc.cfg", wd2)
+    counts = {}
+    n = 0
+    good = []
+    for f, r in zip(files, results):
+        o.add_tlc(r)
+        recs = {x["id"]: x for x in core.read_ndjson(f)}
+        n += len(recs)
+        if len(r.verdicts) != len(recs):
+            raise ToolError(f"C15: {len(r.verdicts)} verdicts for {len(recs)} records")
+        for v in r.verdicts:
+            key = v["class"] + ":" + v["rule"]
+            counts[key] = counts.get(key, 0) + 1
+            o.traces += 1
+            rec = recs[v["id"]]
+            if v["class"] == "mismatch":
+                o.violation({"leg": "binding", "rule": "enc:" + v["rule"], "record": {k: rec[k] for k in list(rec)[:8]}}, {"record": rec})
+            elif len(good) < 60 and rec["k"] in ("int", "fn", "float", "str"):
+                good.append(rec)
+    for r_ in good[:3]:
+        o.samples.append({"leg": "binding", "record": r_})
+    bad = []
+    for k, r_ in enumerate(good[:12]):
+        c = copy.deepcopy(r_)
+        if c["k"] in ("int", "fn"):
+            c["word"]["mag"] = [c["word"]["mag"][0] ^ 8] + c["word"]["mag"][1:] if c["word"]["mag"] else [8]
+        elif c["k"] == "float":
+            c["dec_bits"] = [c["dec_bits"][0] ^ 1] + c["dec_bits"][1:]
+        else:
+            c["dec_cp"] = c["dec_cp"] + [65]
+        bad.append(c)
+    bf = os.path.join(wd2, "corrupt.ndjson")
+    core.write_ndjson(bf, bad)
+    rr = core.tlc_or_die("TV_Enc.tla", "TV_Enc.cfg", env={"RECS": bf}, workdir_=wd2)
+    rej = sum(1 for v in rr.verdicts if v["class"] == "mismatch")
+    if rej != len(bad):
+        raise ToolError(f"C15: sensitivity self-test failed ({rej}/{len(bad)})")
+    o.legs.append({"leg": "binding", "records": n, "verdicts": counts, "sensitivity_tried": len(bad),
+                   "sensitivity_rejected": rej, "wall_s": round(time.time() - t1, 1)})
+    o.extra["exhaustive"] = True
+    o.extra["rule"] = ("laws: exhaustive at word widths 8 and 11 (TLC), symbolic at width 64 over all 2^61 integers and all 2^48 function "
+                       "descriptors (Apalache); binding: lattice and random integers, the complete cross product of a boundary set of "
+                       "(offset, count) pairs, random float bit patterns incl. NaNs / signed zeros / subnormals, random UTF-8, random nested "
+                       "arrays, and the complete cross product of a 200-value sample for equality")
+    return o.finish()
+
+
+# ---------------------------------------------------------------------------
 # C06: operators, exact over the whole range
 # ---------------------------------------------------------------------------
 def corrupt_big(rec, k):
@@ -1262,6 +1368,7 @@ CHECKS = {
     "C12": check_C12,
     "C13": check_C13,
     "C14": check_C14,
+    "C15": check_C15,
     "C10": check_C10,
     "C02": check_C02,
     "C03": check_C03,
